@@ -506,3 +506,47 @@ Lemma last_layer_maupiti_both z_in scale B sumw sh sx sw (acc : Q) :
   qabs (maupiti_last z_in scale (B * scale) sumw sh (acc - inject_Z z_in * inject_Z sumw) - fq_real sx sw B acc)
     == qabs (acc + inject_Z B) * qabs (inject_Z scale / qpow2 sh - sw * sx).
 Proof. split; [apply last_layer_maupiti | apply last_layer_maupiti_err]. Qed.
+
+(* ---------------- repaired MAUPITI offsets (input precision / output precision), output-layer window form *)
+
+(* repaired MAUPITI form: input offset 2^(p_in-1), output offset 2^(p_out-1), any pair of precisions *)
+Lemma maupiti2_offset_equiv pi' po' scale addb sumw sh (acc : Q) :
+  maupiti_requant2 (S pi') (S po') scale addb sumw sh (acc - inject_Z (pow2 pi') * inject_Z sumw)
+  = (match_requant (S po') scale addb sh acc - pow2 po')%Z.
+Proof.
+  unfold maupiti_requant2, match_requant. replace (S pi' - 1)%nat with pi' by lia. replace (S po' - 1)%nat with po' by lia.
+  set (zi := pow2 pi'). set (z := pow2 po').
+  assert (E : requant_pre scale (zero_point2 zi z scale addb sumw sh) sh (acc - inject_Z zi * inject_Z sumw)
+              == requant_pre scale addb sh acc - inject_Z z).
+  { unfold requant_pre, zero_point2. pose proof (qpow2_pos sh) as Hp.
+    push_inj. rewrite inject_pow2. field. lra. }
+  rewrite (Qfloor_comp _ _ E), floor_sub_int.
+  rewrite pow2_S. fold z. replace (2 * z - 1)%Z with ((2 * z - 1 + z) - z)%Z at 1 by lia.
+  replace (z - 1)%Z with ((2 * z - 1) - z)%Z by lia.
+  rewrite zclip_shift. replace (2 * z - 1 + z - z)%Z with (2 * z - 1)%Z by lia. reflexivity.
+Qed.
+
+Lemma maupiti2_same_precision p scale addb sumw sh acc :
+  maupiti_requant2 p p scale addb sumw sh acc = maupiti_requant p scale addb sumw sh acc.
+Proof. reflexivity. Qed.
+
+Lemma maupiti_requant2_range pi po' scale addb sumw sh acc :
+  (- pow2 po' <= maupiti_requant2 pi (S po') scale addb sumw sh acc <= pow2 po' - 1)%Z.
+Proof. unfold maupiti_requant2, zclip. replace (S po' - 1)%nat with po' by lia. pose proof (pow2_pos po'). lia. Qed.
+
+(* the pinned upstream form (both offsets from the output precision) is wrong for mixed precisions *)
+Lemma upstream_maupiti_mixed_refuted : exists pi' po' scale addb sumw sh (acc : Q),
+  maupiti_requant (S po') scale addb sumw sh (acc - inject_Z (pow2 pi') * inject_Z sumw)
+  <> (match_requant (S po') scale addb sh acc - pow2 po')%Z.
+Proof. exists 1%nat, 3%nat, 8988%Z, 0%Z, 40%Z, 21%nat, 500. vm_compute. discriminate. Qed.
+
+(* output layer (Linear, or Conv2d at one output position): window of unsigned codes xs (0 at padded positions,
+   stored as x - z_in, the padding value being -z_in), kernel ws *)
+Lemma last_layer_maupiti_window z_in scale B sh ws xs : length ws = length xs ->
+  maupiti_last z_in scale (B * scale) (zsum ws) sh (inject_Z (zdot ws (map (fun x => x - z_in)%Z xs)))
+  == (inject_Z scale / qpow2 sh) * (inject_Z (zdot ws xs) + inject_Z B).
+Proof.
+  intro H. rewrite (zdot_offset z_in ws xs H).
+  rewrite <- (last_layer_maupiti z_in scale B (zsum ws) sh (inject_Z (zdot ws xs))).
+  unfold maupiti_last, requant_pre. push_inj. reflexivity.
+Qed.
